@@ -496,7 +496,8 @@ def conform(traces, wd, max_rounds=6, module="TraceFlwMC.tla", cfg="TraceFlw.cfg
             return 0, 0, []
         cur = tf
         for rnd in range(max_rounds):
-            res = run_tlc(module, cfgp, os.path.join(wd, f"conf-meta-{ix}-{rnd}"), workers=1, timeout=1200,
+            res = run_tlc(module, cfgp, os.path.join(wd, f"conf-meta-{ix}-{rnd}"), workers=1,
+                          timeout=1200 if os.environ.get("VERIF_TIER", "quick") == "quick" else 3600,
                           env={"TRACE": cur}, xmx="3g")
             consumed = 0
             for tag, rest in res["printed"]:
